@@ -115,6 +115,8 @@ func (q Quantity) ToProtoQuantity() *dtpb.Quantity {
 
 	if q.unit != "" {
 		res.Unit = fhir.String(q.unit)
+		// the code is what the unit of a FHIR Quantity is read back from
+		res.Code = fhir.Code(q.unit)
 	}
 
 	return res
